@@ -15,7 +15,7 @@ def run(tier, replay=None):
     rep.set("bounds", {"catalogue": "families A (level layouts x 4 placements) and B (group/data structures), both byte orders",
                        "size_vectors": "largest ladder rung with <= %d vectors per message; rungs %s" % (cap, _cat.LADDER),
                        "value_vectors": 2, "backgrounds": ["0xA5", "stale valid image of the same message"],
-                       "drivers": ["random access", "plain cursor (+skip for unwritten fields, dont_move for data)", "set_by_tag"],
+                       "drivers": ["random access", "plain cursor (+skip for unwritten fields, dont_move for data)", "set_by_tag", "set_by_tag / get_by_tag with a plain cursor"],
                        "write_masks": "all 2^k subsets (k<=4) on the largest size vector, all-written elsewhere",
                        "data_assign": ["assign_range", "resize+operator[]", "assign(first,last)", "clear+push_back"],
                        "group_header": ["fill_group_header(n)", "fill_group_header(0)+resize(n)"],
